@@ -1,7 +1,11 @@
 pub mod backend;
 pub mod c04;
 pub mod c09;
+pub mod c20;
+pub mod crash;
+pub mod crashchecks;
 pub mod driver;
+pub mod faultchecks;
 pub mod dyntab;
 pub mod genr;
 pub mod hist;
@@ -15,6 +19,10 @@ pub fn all_checks() -> Vec<Box<dyn driver::Check>> {
     vec![
         Box::new(c04::C04),
         Box::new(c09::C09),
+        Box::new(crashchecks::c01()),
+        Box::new(crashchecks::c11()),
+        Box::new(faultchecks::C08),
+        Box::new(c20::C20),
         Box::new(histchecks::c02()),
         Box::new(histchecks::c05()),
         Box::new(histchecks::c07()),
